@@ -81,7 +81,8 @@ def run(chk):
                    site=C.site(b, h), sample={"case": list(map(str, k)), "derived": str(sorted(table.get(k, []), key=str))})
         chk.floor("R12.1", "cases", len(table), 3)
     # ---- R12.2
-    c06.r062(chk, w)
+    with chk.only(keys=lambda k: "tag_candidates" not in k):   # the reporting accessor is C06's subject; here: trainer slots <-> predictor slots
+        c06.r062(chk, w)
     # ---- R12.4
     outs = it.run(0)
     stores = {}
